@@ -2,8 +2,8 @@
 (* Trace judge for FzfEditor: every transition recorded from the real terminal loop (hooks term.act / term.loop /  *)
 (* term.list / term.render) must be the transition the specification prescribes.  One record per transition:       *)
 (*   k = "act"    : pre, post, act, arg, env       post = Apply(act, arg, pre, env)                                 *)
-(*   k = "render" : pre, post, env                 post = ConstrainView(pre, env)   (+ cursor designates a result)  *)
-(*   k = "list"   : pre, post, kind, minLoaded     post = ListChanged(pre, kind, loaded)                            *)
+(*   k = "render" : pre, post, env, lastFocus      post = RenderT(pre, env, lastFocus) (+ cursor designates a result)*)
+(*   k = "list"   : pre, post, kind, minLoaded, oldList, newList, maxItems   post = ListChangedT(...)                *)
 (*   k = "steady" : pre, post                      post = pre  (nothing may change between these two events)        *)
 (*   k = "items"  : texts, orig                   the texts of the listed items are the input records                *)
 (*   k = "exit"   : pre, act, env, reading, count, how     how = Exits(act, pre, env, reading, count)               *)
@@ -19,9 +19,9 @@ Explained(r) ==
   CASE r.k = "act" ->
          IF r.act \in Modelled THEN Apply(r.act, r.arg, r.pre, r.env) = r.post /\ TypeOKs(r.post) /\ SelectionWithinLimit(r.post)
          ELSE PrintT(<<"UNMODELLED", r.act>>)
-    [] r.k = "render" -> /\ ConstrainView(r.pre, r.env) = r.post
+    [] r.k = "render" -> /\ RenderT(r.pre, r.env, r.lastFocus) = r.post
                          /\ (r.env.maxItems > 0 => CursorDesignates(r.post, r.env) /\ ViewOK(r.post, r.env))
-    [] r.k = "list" -> ListChanged(r.pre, r.kind, LAMBDA x : x >= r.minLoaded) = r.post
+    [] r.k = "list" -> ListChangedT(r.pre, r.oldList, r.newList, r.kind, LAMBDA x : x >= r.minLoaded, r.maxItems) = r.post
     [] r.k = "steady" -> r.pre = r.post
     [] r.k = "items" -> r.texts = r.orig        \* items never change after they have been read
     [] r.k = "exit" -> Exits(r.act, r.pre, r.env, r.reading, r.count) = r.how
